@@ -184,7 +184,7 @@ def round2(ctx, rng, cd, cat):
 
     # ---- (a) legacy frames ----
     leg = []
-    for j in range(6 if ctx.quick else 30):
+    for j in range(6 if ctx.quick else 120):
         nb = rng.choice([1, 1, 2, 3])
         blocks = [rng.randbytes(rng.choice([1, 5, 12, 40, 300])) for _ in range(nb)]
         x = b"".join(blocks)
@@ -235,6 +235,7 @@ def round2(ctx, rng, cd, cat):
         for k in sorted(set(rng.sample(range(1, len(z[1])), min(12, len(z[1]) - 1)))):
             add("H%d.lcut%d" % (li, k), f + z[1][:k], None, "prefix", name + " + " + z[0], ["oneshot", "dctx"], cap=len(z[2]) + len(x) + 64)
 
+    prc_lie = []
     # ---- (a') hand-built frames WITH a checksum (the catalogue's hand-built layouts have none): empty content, empty last block,
     # RLE only, several blocks; every cut, every bit of the stored checksum, declared-size lies, on every path ----
     ALLP = ["oneshot", "dctx", "stream:1:0", "stream:7:3", "stream:0:0", "stream:0:1", "stableout:0", "continue"]
@@ -260,15 +261,57 @@ def round2(ctx, rng, cd, cat):
             prc.append(("Y%d.ck%d" % (li, bit), "nostrict", None, bytes(d)))
         add("Y%d.nock" % li, f[:-4] + bytes(4), x, "complete", name + " nocheck", ["dctx", "stream:1:0", "stream:0:0", "continue"], flags=codec.dparams_str({"forceIgnoreChecksum": 1}))
 
+    # ---- (a'') declared-content-size lies for EVERY field width (1-byte single-segment form, the 2-byte +256 form, 4, 8 bytes), windowed and
+    # single-segment: too small, too large, 0 with non-empty blocks, off by exactly the last block, wrap-arounds of the narrower fields ----
+    def lie_frame(blocks, fcs_mode, single, declared, window_log):
+        fcs_flag = {1: 0, 2: 1, 4: 2, 8: 3}[fcs_mode]
+        o = bytearray(struct.pack("<I", 0xFD2FB528))
+        o.append((fcs_flag << 6) | ((1 if single else 0) << 5))
+        if not single:
+            o.append((window_log - 10) << 3)
+        o += (declared - 256 if fcs_mode == 2 else declared).to_bytes(fcs_mode, "little")
+        for i, b in enumerate(blocks):
+            last = 1 if i == len(blocks) - 1 else 0
+            o += ((last | (len(b[1]) << 3)).to_bytes(3, "little") + b[1]) if b[0] == "raw" else ((last | 2 | (b[2] << 3)).to_bytes(3, "little") + bytes([b[1]]))
+        return bytes(o)
+    fits = {1: lambda d: 0 <= d < 256, 2: lambda d: 256 <= d < 65536 + 256, 4: lambda d: 0 <= d < 2 ** 32, 8: lambda d: 0 <= d < 2 ** 64}
+    LP = ["oneshot", "dctx", "stream:1:0", "stream:7:3", "stream:0:0", "stream:0:1", "stableout:0", "stableout:2", "continue"]
+    nl = 0
+    for it in range(12 if ctx.quick else 400):
+        blocks = []
+        for j in range(rng.choice([1, 1, 2, 3, 5])):
+            k = rng.choice([0, 1, 3, 17, 100, 300, 1024])
+            blocks.append(("raw", rng.randbytes(k)) if rng.random() < 0.5 else ("rle", rng.randrange(256), k))
+        if rng.random() < 0.3:
+            blocks.append(("raw", b""))
+        x = b"".join(b[1] if b[0] == "raw" else bytes([b[1]]) * b[2] for b in blocks)
+        n = len(x)
+        lastn = len(blocks[-1][1]) if blocks[-1][0] == "raw" else blocks[-1][2]
+        for mode in (1, 2, 4, 8):
+            for single in (True, False):
+                if mode == 1 and not single:
+                    continue
+                for d in sorted({n - 1, n + 1, 0, n + lastn, n - lastn, 2 * n, n + 256, n - 256, n + 65536, n + 2 ** 32, n + 1024, 255, 256, 65535 + 256, n + 128 * 1024}):
+                    if d == n or not fits[mode](d):
+                        continue
+                    f = lie_frame(blocks, mode, single, d, rng.choice([10, 11, 17]))
+                    nl += 1
+                    cap = max(n, d if d < (1 << 20) else 0) + 1100
+                    add("Z%d" % nl, f, x, "fcslie", "py-lie fcs=%d ss=%d declared=%d real=%d" % (mode, single, d, n), LP, cap=cap)
+                    if nl % 3 == 0:
+                        add("Zm%d" % nl, f[4:], x, "fcslie", "py-lie magicless fcs=%d ss=%d declared=%d real=%d" % (mode, single, d, n), ["dctx", "stream:1:0", "stream:0:0", "continue"], flags=codec.dparams_str({"format": 1}), cap=cap)
+                    if nl % (40 if ctx.quick else 10) == 0:
+                        prc_lie.append(("Z%d" % nl, "nostrict", None, f))
+
     # ---- (b) more decoding entry points on the layout catalogue: every cut point ----
     XP = ["dctx", "usingDict", "ddict", "stableout:0", "stableout:3", "stream:0:1", "stream:3:1"]
     ML = codec.dparams_str({"format": 1})
     sk = lambda payload, v=0: (0x184D2A50 + v).to_bytes(4, "little") + len(payload).to_bytes(4, "little") + payload
-    rsub = set(rng.sample(range(len(cat)), min(len(cat), 5 if ctx.quick else 25)))
+    rsub = set(rng.sample(range(len(cat)), min(len(cat), 5 if ctx.quick else 40)))
     rcases = []
     for li, (name, f, x) in enumerate(cat):
         big = len(f) > 320
-        cuts = range(1, len(f)) if not big else sorted(set(list(range(1, 24)) + rng.sample(range(24, len(f)), 40) + list(range(len(f) - 8, len(f)))))
+        cuts = range(1, len(f)) if (not big or not ctx.quick) else sorted(set(list(range(1, 24)) + rng.sample(range(24, len(f)), 40) + list(range(len(f) - 8, len(f)))))
         add("X%d.full" % li, f, x, "complete", name, XP)
         for k in cuts:
             add("X%d.cut%d" % (li, k), f[:k], None, "prefix", name, XP)
@@ -297,6 +340,37 @@ def round2(ctx, rng, cd, cat):
             add("T%d.sktail%s" % (li, tail.hex()), f + sk(b"xy", 7) + tail, None, "garbage", name + " + skippable", ["oneshot", "dctx"])
             if li in rsub:
                 rcases.append(("T%d.tail%s" % (li, tail.hex()), "nostrict", None, f + tail))
+    # ---- (b') frames that need a dictionary (loaded, prefix, CDict, raw content), decoded WITH it through every dictionary entry point:
+    # every cut, every checksum bit; with the wrong / no dictionary a checksummed frame must not come back altered ----
+    dicts = [codec.gen_input(rng, "text", 3000), rng.randbytes(500)]
+    dreq = []
+    for i in range(4 if ctx.quick else 30):
+        dc = dicts[i % 2]
+        x = (dc[100:400] + codec.gen_input(rng, "text", rng.choice([50, 400, 2000])) + dc[50:120]) if i % 3 else codec.gen_input(rng, "text", rng.choice([10, 300]))
+        dreq.append(("dz%d" % i, x, {"level": rng.choice([1, 3, 19]), "checksum": rng.choice([0, 1, 1]), "contentSize": rng.choice([0, 1])},
+                     rng.choice(["load", "prefix", "cdict", "loadraw"]), dc))
+    dco, _ = cd.impl(["C %s compress2 %s %s %s %s" % (i, codec.params_str(pp), mode, codec.hx(dc), codec.hx(x)) for i, x, pp, mode, dc in dreq])
+    DPATHS = ["usingDict", "ddict", "ddictref", "loaddict", "rawdict", "refprefix", "stream:1:0", "stream:7:3", "stream:0:0", "stableout:0", "continue", "multiddict"]
+
+    def addd(cid, data, x, what, layout, dc):
+        meta[cid] = (data, x, what, layout, None)
+        for pth in DPATHS:
+            lines.append("D %s|%s %s - %s %s %d" % (cid, pth, pth, codec.hx(dc) if dc else "-", codec.hx(data), len(x) + 64))
+    for i, x, pp, mode, dc in dreq:
+        r = codec.parse_ok(dco.get(i, "ERR missing"))
+        if r[0] != "OK":
+            continue
+        f, name = r[1], "zstd+dict(%s) %s n=%d" % (mode, pp, len(x))
+        addd("%s.full" % i, f, x, "complete", name, dc)
+        for k in range(1, len(f)):
+            addd("%s.cut%d" % (i, k), f[:k], x, "prefix", name, dc)
+        if pp["checksum"]:
+            for bit in range(32):
+                g = bytearray(f)
+                g[len(f) - 4 + bit // 8] ^= 1 << (bit % 8)
+                addd("%s.ck%d" % (i, bit), bytes(g), x, "ckflip", name, dc)
+            addd("%s.wrongdict" % i, f, x, "flip", name + " wrong dictionary", bytes(b ^ 0x20 for b in dc))
+            addd("%s.nodict" % i, f, x, "flip", name + " no dictionary", None)
     mark("decode cases built (%d lines)" % len(lines))
     out, errs = cd.impl(lines)
     mark("decode cases run")
@@ -326,8 +400,8 @@ def round2(ctx, rng, cd, cat):
         elif what == "flip" and r[0] == "OK" and r[1] != x:
             if fkey == KEY_V07_CK and (pth.startswith("stream") or pth.startswith("stableout")):
                 fkey = None
-            keyed(rep, key=fkey, what="checksummed legacy frame with damaged content accepted by libzstd path %s with altered content (%s of %s)" % (pth, cid, layout))
-    rcases += prc
+            keyed(rep, key=fkey, what="checksum-protected frame (damaged content, or decoded with the wrong dictionary) accepted by libzstd path %s with altered content (%s of %s)" % (pth, cid, layout))
+    rcases += prc + prc_lie
     mark("decode cases judged")
     if rcases:
         mres = cd.model(rcases)
@@ -339,8 +413,9 @@ def round2(ctx, rng, cd, cat):
                 ctx.violation(rep, what="reference decoder R rejects / mis-decodes a catalogue frame (%s)" % layout, no_input=True)
             if what in ("prefix", "garbage") and m[0] == "OK":
                 ctx.violation(rep, what="reference decoder R accepts a %s (%s): contradicts C09_last_frame_truncated_rejected / C09_trailing_bytes_rejected" % (what, cid), no_input=True)
-            if what == "ckflip" and m[0] == "OK":
-                ctx.violation(rep, what="reference decoder R accepts a frame with a damaged stored checksum (%s)" % cid, no_input=True)
+            if what in ("ckflip", "fcslie") and m[0] == "OK":
+                ctx.violation(rep, what="reference decoder R accepts a frame with a %s (%s): contradicts C09_size_and_checksum_enforced" % (
+                    "damaged stored checksum" if what == "ckflip" else "wrong declared content size", cid), no_input=True)
             ctx.cov["traces_validated_against_impl"] += 1
     ctx.notes["round2_decode_cases"] = ndone
 
@@ -348,7 +423,7 @@ def round2(ctx, rng, cd, cat):
     eexe = core.build_harness("c09_enc", ["c09_enc.c"], variant="o1", extra_flags=["-w"])
     hl, hm = [], {}
     ckl = [c for c in cat if (c[1][4] >> 2) & 1] or cat
-    for i in range(150 if ctx.quick else 1500):
+    for i in range(150 if ctx.quick else 6000):
         a = rng.choice(cat)
         b = rng.choice(ckl if rng.random() < 0.8 else cat)
         cut = rng.randrange(0, len(a[1]) + 1)
@@ -413,7 +488,7 @@ def round2(ctx, rng, cd, cat):
                 continue
             for pledge in lies(n) + [None]:      # None: no pledge at all (the size is auto-determined when the frame starts under ZSTD_e_end)
                 for ch in chunkings(n):
-                    if ctx.quick and rng.random() < (0.5 if n <= 5000 else 0.85):
+                    if rng.random() < ((0.5 if n <= 5000 else 0.85) if ctx.quick else (0.0 if n <= 5000 else 0.7)):
                         continue
                     pid += 1
                     pl.append("P p%d s2 %s %s %s %s" % (pid, codec.params_str(params), "-" if pledge is None else pledge, ch, hexes[n]))
@@ -422,14 +497,10 @@ def round2(ctx, rng, cd, cat):
             for k in range(kmax):
                 for pledge in lies(n) + ([None] if var == "os" else []):
                     for ch in chunkings(n):
-                        if (ctx.quick and rng.random() < (0.6 if n <= 5000 else 0.85)) or (n > 5000 and rng.random() < 0.5):
+                        if rng.random() < ((0.6 if n <= 5000 else 0.9) if ctx.quick else (0.0 if n <= 5000 else 0.8)):
                             continue
-                        if var == "os":
-                            # ZSTD_flushStream before the first accepted byte breaks the stable-buffer control of the following calls
-                            # (valid history refused, reported to the lead, not a C09 matter): not generated
-                            cc = [tuple(int(v) for v in c.split(":")) for c in ch.split(",")] if ch != "-" else []
-                            if any(cd == 1 and sum(min(n, a[0]) for a in cc[:j + 1]) == 0 for j, (cn, cd) in enumerate(cc)):
-                                continue
+                        # (os: ZSTD_flushStream before the first accepted byte used to break the stable-buffer control of the following
+                        # calls - repaired as 9a6b24a, recorded under C10 - and is generated like any other history)
                         pid += 1
                         pl.append("P p%d %s:%d - %s %s %s" % (pid, var, k, "-" if pledge is None else pledge, ch, hexes[n]))
                         pmeta["p%d" % pid] = (var + str(k), {"stableIn": 1} if var == "os" else {}, pledge, ch, n)
@@ -437,6 +508,19 @@ def round2(ctx, rng, cd, cat):
             pid += 1
             pl.append("P p%d c2 - %d - %s" % (pid, pledge, hexes[n]))
             pmeta["p%d" % pid] = ("c2", {}, pledge, "-", n)
+    # really multithreaded frames (above ZSTDMT_JOBSIZE_MIN), also over a stable input buffer and with long-distance matching
+    nbig = 600000
+    inputs[nbig] = codec.gen_input(rng, "text", nbig)
+    hexes[nbig] = codec.hx(inputs[nbig])
+    for j in range(6 if ctx.quick else 60):
+        params = rng.choice([{"nbWorkers": 1, "jobSize": 1}, {"nbWorkers": 2, "jobSize": 1, "stableIn": 1}, {"nbWorkers": 1, "jobSize": 1, "checksum": 1, "contentSize": 0},
+                             {"nbWorkers": 2, "jobSize": 1, "ldm": 1, "stableIn": 1}])
+        pledge = rng.choice([nbig, nbig + 1, nbig - 1, nbig - 300000, nbig + 600000, 0, None])
+        ch = rng.choice(["%d:0" % nbig, "%d:0,%d:0" % (nbig // 2, nbig - nbig // 2), "%d:1,%d:0" % (nbig // 3, nbig - nbig // 3), "100:0,%d:0" % (nbig - 100),
+                         "%d:0,100:2" % (nbig - 100), "%d:2" % nbig, "100000:0,100000:0,100000:0,100000:0,100000:0,%d:0" % (nbig - 500000)])
+        pid += 1
+        pl.append("P p%d s2 %s %s %s %s" % (pid, codec.params_str(params), "-" if pledge is None else pledge, ch, hexes[nbig]))
+        pmeta["p%d" % pid] = ("s2", params, pledge, ch, nbig)
     mark("pledge histories built (%d)" % len(pl))
     po, perrs = codec._run_chunks(eexe, pl, core.NCPU, 900)
     mark("pledge histories run")
@@ -566,6 +650,11 @@ def run(ctx):
                        "segment, dictID widths, empty last block) + real compressor output (compressed blocks, checksum, multi-block); for each "
                        "frame EVERY cut point k in 1..|f|-1 x {one-shot, stream 1-byte / 7-byte / whole segments, buffer-less, R}; trailing garbage; "
                        "every single-bit flip of the stored checksum; sampled bit flips elsewhere; content-size lies; pledged-size lies; "
+                       "round 2: legacy v0.5/v0.6/v0.7 frames (every cut, size lies, every bit of the v0.7 checksum), hand-built checksummed frames incl. empty "
+                       "content, size lies for every field width incl. wrap-arounds, 7 more decoding entry points + magicless format + 12 dictionary entry "
+                       "points at every cut, two frames with only the last cut, stray bytes / cut skippable header behind a frame, decoder histories (reset "
+                       "mid-frame, size hints, wrong sizes), pledged-size histories {pledge} x {chunking, directives} x {stable input, workers, flags} through "
+                       "compressStream2 / older initialisers / buffer-less API judged by the statement and by the extracted pledge model; "
                        "distinct = distinct (layout, kind of damage, position class); non-trivial = every case (all are damaged frames)")
     import time
     t00 = time.time()
